@@ -290,3 +290,84 @@ def systematic_sources(basic):
                     nxt = (hm(off + 60), "-", "FIX") if nx == "-" else (hm(off), "PA", "B%sT")
                     src([("PA", pa)], [(hm(off + 7), "-", "LMT", "1980"), (hm(off), "PA", "A%sT", form), nxt], "%s/%s/until-dow/%s" % (h, nx, form))
     return out
+
+
+# ---------------------------------------------------------------------------------------------------------------------
+# exploration layer (used by tools/wild.py, not by the registered checks): the restrictions of the registered layer are
+# lifted - rules in any month, several rules per month, era boundaries anywhere incl. on rule transitions and as weekday
+# expressions, policy year ranges that start / stop around the era changes
+# ---------------------------------------------------------------------------------------------------------------------
+
+@st.composite
+def wild_on_day(draw):
+    kind = draw(st.sampled_from(["d", "last", "ge", "le"]))
+    if kind == "d":
+        return str(draw(st.integers(1, 28)))
+    w = draw(st.sampled_from(DOW))
+    if kind == "last":
+        return "last" + w
+    if kind == "ge":
+        return "%s>=%d" % (w, draw(st.integers(1, 28)))
+    return "%s<=%d" % (w, draw(st.integers(2, 28)))
+
+
+@st.composite
+def wild_policy(draw, name, basic, years):
+    nr = draw(st.integers(1, 5))
+    rules = []
+    save = draw(st.sampled_from([60, 60, 30, 120]))
+    for i in range(nr):
+        y0 = draw(st.sampled_from(years)) + draw(st.integers(-2, 2))
+        kind = draw(st.sampled_from(["max", "max", "only", "range"]))
+        to = "max" if kind == "max" else ("only" if kind == "only" else str(min(2037, y0 + draw(st.integers(1, 6)))))
+        if to != "max" and to != "only" and int(to) <= y0:
+            to = "only"
+        if y0 > 2037:
+            y0 = 2037
+        mo = draw(st.integers(1, 12))
+        on = draw(wild_on_day())
+        at = draw(at_time(basic))
+        sv = draw(st.sampled_from([0, 0, save]))
+        letter = "S" if sv == 0 else "D"
+        rules.append(("Rule", name, y0, to, "-", MON[mo - 1], on, at, hm(sv) if sv else "0", letter))
+    return {"name": name, "rules": rules, "features": set(), "multi": False}
+
+
+@st.composite
+def source_wild(draw, basic=False):
+    years = sorted(draw(st.lists(st.integers(1996, 2034), min_size=2, max_size=4, unique=True)))
+    pols = [draw(wild_policy("P%c" % (65 + i), basic, years)) for i in range(draw(st.integers(1, 2)))]
+    off = draw(st.integers(-12 * 60, 12 * 60))
+    if basic:
+        off = (off // 15) * 15
+    eras = [(hm(off + 7 if not basic else off), "-", "LMT", str(draw(st.integers(1975, 1988))))]
+    n = draw(st.integers(1, len(years)))
+    for i in range(n):
+        if i:
+            off = max(-900, min(900, off + draw(st.sampled_from([0, 0, 60, -60, 30 if not basic else 60]))))
+        kind = draw(st.sampled_from(["-", "fixed", "pol", "pol", "pol"]))
+        if kind == "-":
+            rules, fmt = "-", draw(st.sampled_from(["XST", "ABCD"]))
+        elif kind == "fixed":
+            rules, fmt = "1:00", "XDT"
+        else:
+            rules, fmt = draw(st.sampled_from(pols))["name"], draw(st.sampled_from(["X%sT", "AAA/BBBB"]))
+        if i < n - 1:
+            y = years[i]
+            form = draw(st.sampled_from(["y", "ym", "ymd", "ymdt", "dow"])) if not basic else "y"
+            if form == "y":
+                until = str(y)
+            else:
+                mo = draw(st.integers(1, 12))
+                until = "%d %s" % (y, MON[mo - 1])
+                if form == "dow":
+                    until += " " + draw(wild_on_day()) + " " + hm(draw(st.sampled_from([0, 60, 120, 180]))) + draw(st.sampled_from(["", "s", "u"]))
+                elif form in ("ymd", "ymdt"):
+                    until += " %d" % draw(st.integers(1, 28))
+                    if form == "ymdt":
+                        until += " " + hm(draw(st.sampled_from([0, 60, 120, 180, 1440, 90]))) + draw(st.sampled_from(["", "s", "u"]))
+        else:
+            until = ""
+        eras.append((hm(off), rules, fmt, until))
+    eras = [e + ("",) * (4 - len(e)) for e in eras]
+    return {"policies": pols, "zones": [{"name": "Gen/Zone0", "eras": eras, "features": set()}], "links": []}
